@@ -15,7 +15,7 @@ ASSUME = [
     "legal sequential Wishbone master: cyc/stb/adr/we/sel/dat_w/cti held until ack (or until the master aborts by dropping cyc and stb together); one access at a time; "
     "between accesses it idles (cyc low) or inserts wait states (cyc high, stb low) for any number of cycles, or continues back-to-back; stb is never high while cyc is low",
     "incrementing bursts: CTI=2 announces that the next access of the same cycle has the same direction and address+1 (BTE linear); CTI=7 or a classic cycle (CTI=0) ends it; "
-    "only in the *abort* configurations may the master also end a burst early by dropping cyc between beats",
+    "only in the *abort* configurations may the master also end a burst early by dropping cyc between beats; in the *loosecti* configurations the master may follow a CTI=2 beat with any other access (direction, address) while cyc stays high",
     "aborts (only where flagged): the master may drop cyc/stb in any cycle after the first one of an un-acknowledged access; the bytes of an aborted write are 'old or new' in the reference, an aborted read has no effect",
     "K accesses per run over an address alphabet covering two wide words; the i-th access writes data tag i in every byte lane (lane-distinct values), sel from {all, one partial pattern}; reads select all lanes",
     "memory below the bridge = native-port responder restricted to real-core behaviour (wdata strobe >= 3, read data >= 6 cycles after acceptance, in order, strobes ignore valid/ready as the crossbar does); cmd.ready and latencies otherwise free",
@@ -37,7 +37,7 @@ def bv(baddr, tag):
 
 class WbHarness(Harness):
     def __init__(self, wbw=32, pw=32, K=3, base_address=0, aborts=False, naddr=None, sels=None, ctis=(0, 2), ops="RW", wait_states=True,
-                 idle_ones=False, pattern=None, burst_cut=None, abort_ops="RW", wmin=3, rmin=6, qmax=3, adr_width=8, port_aw=6, idle_stb=False, decoupled=False):
+                 idle_ones=False, pattern=None, burst_cut=None, abort_ops="RW", wmin=3, rmin=6, qmax=3, adr_width=8, port_aw=6, idle_stb=False, decoupled=False, loose_cti=False):
         from litex.soc.interconnect import wishbone
         from litedram.common import LiteDRAMNativePort
         from litedram.frontend.wishbone import LiteDRAMWishbone2Native
@@ -62,7 +62,7 @@ class WbHarness(Harness):
             sels = [full] + ([] if self.bw == 1 else [0b10 if self.bw == 2 else (0b0110 if self.bw == 4 else full >> 1)])
         self.sels = list(sels); self.full = full
         self.ctis = tuple(ctis); self.ops = ops; self.pattern = pattern
-        self.aborts = bool(aborts); self.burst_cut = self.aborts if burst_cut is None else bool(burst_cut)
+        self.loose_cti = bool(loose_cti); self.aborts = bool(aborts); self.burst_cut = self.aborts if burst_cut is None else bool(burst_cut)
         self.wait_states = bool(wait_states); self.idle_stb = bool(idle_stb); self.abort_ops = abort_ops
         ii = c.ii
         self.i = {n: ii.get(getattr(wb, n)) for n in ("adr", "dat_w", "sel", "cyc", "stb", "we", "cti", "bte")}
@@ -105,14 +105,15 @@ class WbHarness(Harness):
             for sel in (self.sels if we else [self.full]):
                 out.append((we, a, sel, 7))
                 if a + 1 < self.naddr and bud >= 2 and 2 in self.ctis: out.append((we, a, sel, 2))
-            return out
+            if not self.loose_cti: return out
+            # loose_cti: the master may also break the CTI=2 announcement (other direction / other address) with cyc still high
         for we in (0, 1):
             if ("W" if we else "R") not in self.ops or ("W" if we else "R") not in op_ok: continue
             for a in range(self.naddr):
                 for sel in (self.sels if we else [self.full]):
                     for cti in self.ctis:
                         if cti == 2 and not (a + 1 < self.naddr and bud >= 2): continue
-                        out.append((we, a, sel, cti))
+                        if (we, a, sel, cti) not in out: out.append((we, a, sel, cti))
         return out
 
     def master_menu(self, E):
@@ -458,6 +459,9 @@ def configs(tier):
         add("narrow-16on32-K4-aborts-RRWR", wbw=16, pw=32, K=4, aborts=True, pattern="RRWR")
         add("wide-32on16-K3-readaborts", wbw=32, pw=16, K=3, aborts=True, abort_ops="R")
         add("narrow-8on32-K3", wbw=8, pw=32, K=3)
+        # a master that announces an incrementing burst (CTI=2) and then does something else with cyc held: the read cache / merge buffer must not serve stale data
+        add("narrow-16on32-K3-loosecti-RWR", wbw=16, pw=32, K=3, loose_cti=True, pattern="RWR")
+        add("narrow-16on32-K4-loosecti-WRWR-nowait", wbw=16, pw=32, K=4, loose_cti=True, pattern="WRWR", wait_states=False)
         add("wide-32on8-K3", wbw=32, pw=8, K=3)
         add("narrow-16on32-K3", wbw=16, pw=32, K=3)
         add("narrow-32on64-K3", wbw=32, pw=64, K=3)
@@ -480,6 +484,10 @@ def configs(tier):
         add("eq-32on32-K4-aborts", wbw=32, pw=32, K=4, naddr=2, aborts=True)
         add("eq-16on16-K4-aborts", wbw=16, pw=16, K=4, naddr=2, aborts=True)
         add("narrow-16on32-K5", wbw=16, pw=32, K=5, max_states=6_000_000)
+        add("narrow-16on32-K4-loosecti", wbw=16, pw=32, K=4, loose_cti=True, max_states=8_000_000)
+        add("narrow-8on32-K3-loosecti", wbw=8, pw=32, K=3, loose_cti=True, max_states=6_000_000)
+        add("narrow-16on32-K5-loosecti-WRWRR-nowait", wbw=16, pw=32, K=5, loose_cti=True, pattern="WRWRR", wait_states=False, max_states=8_000_000)
+        add("narrow-32on64-K4-loosecti-RWRW", wbw=32, pw=64, K=4, loose_cti=True, pattern="RWRW", max_states=6_000_000)
         add("narrow-8on32-K4", wbw=8, pw=32, K=4, max_states=6_000_000)
         add("narrow-8on16-K4", wbw=8, pw=16, K=4)
         add("narrow-32on64-K4", wbw=32, pw=64, K=4)
